@@ -741,11 +741,11 @@ func (w *World) result() *RunResult {
 		Switches: w.switches, Overlaps: w.overlaps, Faults: map[string]int{}, Truncated: w.truncated,
 		SimTime: time.Since(w.startTime), Hits: map[string]int64{}, Case: w.caseKey, CaseTotal: w.caseTotal,
 	}
-	for i := 0; i < int(w.npoints); i++ {
+	for i := 0; i < int(atomic.LoadInt32(&w.npoints)); i++ {
 		if f, ok := strings.CutPrefix(w.pointNames[i], "fault:"); ok {
-			r.Faults[f] = int(w.pointHits[i])
+			r.Faults[f] = int(atomic.LoadInt64(&w.pointHits[i]))
 		} else {
-			r.Hits[w.pointNames[i]] = w.pointHits[i]
+			r.Hits[w.pointNames[i]] = atomic.LoadInt64(&w.pointHits[i])
 		}
 	}
 	r.Notes = append(r.Notes, w.notes...)
